@@ -16,9 +16,11 @@ EXPLANATION = (
     "is_subject_assertion and is_subject_obscured are false (finite valuation), and those predicates' own tables are checked. "
     "C04.5: the shrinking site's table over (found, remaining empty) = {not found: self; found&empty: subject(self); "
     "found&non-empty: node(subject(self), remaining)}. C04.6: Encrypted/Compressed are only built on the passing edge of "
-    "has_digest. Does not decide dCBOR validity of leaf payloads.")
+    "has_digest. C04.8: a decoded node holds no two equal assertion digests - the decoder's node accept exit is dominated by the "
+    "passing edge of a strict adjacent-digest order test over the vector handed to the (sorting) node constructor. Does not decide "
+    "dCBOR validity of leaf payloads.")
 TRUSTED = ['Vec::push/remove/is_empty, Iterator::any/all/position have their std semantics']
-FLOORS = {'C04.1': 7, 'C04.3': 2, 'C04.4': 3, 'C04.5': 3, 'C04.6': 2}
+FLOORS = {'C04.1': 7, 'C04.3': 2, 'C04.4': 3, 'C04.5': 3, 'C04.6': 2, 'C04.8': 1}
 
 P1 = ('param', 1)
 
@@ -146,6 +148,9 @@ def check(ctx):
         return
     check_predicates(ctx)
     C06.check_has_digest(ctx, 'C04.6')
+    # C04.8: the decoding constructor sorts what it is given, so equal digests are only kept out of a decoded node by the
+    # decoder's own strict adjacent-order test over the vector it hands to that constructor
+    C06.check_decoder_order(ctx, 'C04.8')
     # worklist over call sites of node-constructing functions; wrappers that pass a parameter through are followed
     todo = list(ctors.values())
     VALIDATING.clear()
